@@ -126,7 +126,65 @@ def check_C08(rep, prog, tier):
         rep.add_obligation(name, 'holds', st)
 
 
-CHECKS = {'C11': check_C11, 'C12': check_C12, 'C08': check_C08}
+def check_C05(rep, prog, tier):
+    from .harness import gc as G
+    import json
+    dl = tier_deadline(tier, 420, 2700)
+    rep.level = 'fault_enumeration'
+    rep.bounds = {'archives': G.specs(tier), 'delete_sets': 'none (pure gc), each single band, all bands',
+                  'dry_run': [False, True], 'break_lock': 'both when GC_LOCK is present',
+                  'crash_points': 'stop before every storage step k of delete_bands (k chosen by the solver)',
+                  'faults': 'every single read/list/metadata step k failing with each of NotFound/Other/PermissionDenied/AlreadyExists',
+                  'block_lengths': 'symbolic in [1, 2^20]'}
+    rep.assumptions += ['BlockDir::open/list_blocks (tokio JoinSet) modelled as "the set of non-empty well-named block files"',
+                        'remove_dir_all is atomic in the store model', 'tokio::spawn runs the spawned future to completion at once',
+                        'Snappy/JSON exact inverses; hash injective', 'transport model: mirsym/env.py Store']
+    tot = G.sweep(prog, tier, dl)
+    rep.functions |= tot['functions']
+    rep.models |= tot['models']
+    rep.samples += tot['samples'][:2]
+    st = dict(paths=tot['paths'], queries=tot['queries'], solver_s=round(tot['solver_s'], 2), cases=tot['cases_done'])
+    name = 'delete_bands: exactly the requested bands go, kept bands keep every block, no garbage remains, dry run is pure; also after any crash point / read fault'
+    seen = set()
+    for b in tot['bad']:
+        if b.get('kind') == 'panic':
+            key = 'delete:panic:' + (b.get('where') or '').split('::')[-2 if '{closure' in (b.get('where') or '') else -1]
+        else:
+            probs = ' '.join(b['problems'])
+            kind = 'kept-band-loses-blocks' if 'still listed complete but its blocks' in probs else \
+                'removes-unrequested' if 'neither a requested band' in probs else \
+                'garbage-remains' if 'unreferenced blocks remain' in probs else \
+                'dry-run-mutates' if 'dry run' in probs else 'other'
+            key = 'delete:%s:%s' % (kind, b['mode'] if not b.get('fired') else b['mode'] + ':' + b['fired'][1])
+        if key in seen:
+            continue
+        seen.add(key)
+        sc = {'kind': 'gc', 'spec': b.get('spec'), 'delete': b.get('delete'), 'dry_run': b.get('dry_run'),
+              'break_lock': b.get('break_lock', False), 'concrete': b.get('concrete'), 'mirsym': {k: v for k, v in b.items() if k in ('problems', 'result', 'msg', 'where')}}
+        if b.get('fired'):
+            idx, verb, path, what = b['fired']
+            occ = sum(1 for (i, v, p) in b.get('log', []) if v == verb and p == path and i < idx)
+            sc['fired'] = [idx, verb, path, what, occ]
+        out, path_ = runner.replay(sc, 'C05_gc')
+        if b.get('kind') == 'panic':
+            reproduced = bool(out.get('panic'))
+            what_ = 'delete_bands panics: %s (fault %s)' % (b.get('msg'), sc.get('fired'))
+        else:
+            scan = out.get('scan') or {}
+            reproduced = bool(scan.get('damaged')) if 'still listed complete' in ' '.join(b['problems']) else \
+                (out.get('result') == b.get('result') or str(out.get('result', '')).startswith('Err') == str(b.get('result')).startswith('Err'))
+            what_ = 'delete_bands(%s, dry_run=%s) on %s with %s: %s' % (b['delete'], b['dry_run'], json.dumps(b['spec']), sc.get('fired'), '; '.join(b['problems']))
+        rep.violation(key, what_, path_, reproduced)
+    if tot['inconclusive']:
+        rep.inconclusive += ['gc: ' + x for x in tot['inconclusive'][:5]]
+        rep.add_obligation(name, 'inconclusive', st, tot['inconclusive'][:3])
+    elif tot['bad']:
+        rep.add_obligation(name, 'violated', st, [{k: v for k, v in b.items() if k != 'log'} for b in tot['bad'][:3]])
+    else:
+        rep.add_obligation(name, 'holds', st)
+
+
+CHECKS = {'C11': check_C11, 'C12': check_C12, 'C08': check_C08, 'C05': check_C05}
 
 
 def main():
